@@ -2,7 +2,27 @@
 
 package generator
 
+import (
+	"sort"
+
+	"github.com/go-openapi/analysis"
+)
+
 // Hooks for the verification harness in /verif (built only with -tags verif; add-only).
 
 // VerifGenerateReadableSpec exposes generateReadableSpec.
 func VerifGenerateReadableSpec(b []byte) string { return generateReadableSpec(b) }
+
+// VerifOpRef is the naming decision gatherOperations took for one operation.
+type VerifOpRef struct{ Name, Method, Path, Key string }
+
+// VerifGatherOperations exposes gatherOperations (names only), sorted by name.
+func VerifGatherOperations(doc *analysis.Spec) []VerifOpRef {
+	ops := gatherOperations(doc, nil)
+	out := make([]VerifOpRef, 0, len(ops))
+	for nm, o := range ops {
+		out = append(out, VerifOpRef{Name: nm, Method: o.Method, Path: o.Path, Key: o.Key})
+	}
+	sort.Slice(out, func(i, j int) bool { return out[i].Name < out[j].Name })
+	return out
+}
